@@ -4141,9 +4141,6 @@ impl GlobalInferenceCtx<'_> {
             }
             None => {
                 if must_be_void && !ty.is_void() {
-                    // we just checked that the type wasn't void
-                    assert!(!ty.can_be_created_from_nothing());
-
                     self.diagnostics.push(TyDiagnostic {
                         kind: TyDiagnosticKind::Mismatch {
                             expected: ExpectedTy::Concrete(Ty::Void.into()),
